@@ -81,7 +81,9 @@ def frame_levels(frame, name):
 NUM_ATOMS = ["x", "z", "w", "center(x)", "scale(z)", "I(x + 1)", "{w * 2}", "I(z ** 2)", "standardize(w)",
              "center(x + w)", "scale(center(z))"]
 CAT_ATOMS = ["f", "g", "h", "o", "c", "C(k)", "C(f, Sum)", "C(g, Treatment)", "S(h)", "T(f)", "C(o)",
-             "C(h, Sum('v'))", "C(f, Treatment('b'))", "T(g, 'q')", "S(f, 'a')", "C(k, Treatment(2))"]
+             "C(h, Sum('v'))", "C(f, Treatment('b'))", "T(g, 'q')", "S(f, 'a')", "C(k, Treatment(2))",
+             # calls whose RESULT is categorical (Call.eval_categoric), nested boxes
+             "I(f)", "{g}", "I(o)", "I(c)", "C(C(f))", "C(C(h), Sum)"]
 
 
 def rand_term(rng, max_arity=3, num_atoms=NUM_ATOMS, cat_atoms=CAT_ATOMS, p_num=0.4):
